@@ -41,10 +41,14 @@ META = {
                   "(the statement is silent on failed computations, so the design mutant 'derivative tracking moved after the "
                   "computation' is equivalent here). `resources` are compared with an own gate-count / wire-count / depth model "
                   "(C46 decides specs themselves). Classical-shadow measurements, mid-circuit measurements and legacy devices are not driven. "
-                  "jax/torch interfaces are not driven (autograd only); compute_jvp/execute_and_compute_jvp are reached by direct calls only.",
+                  "jax/torch interfaces are not driven (autograd only; a probe showed jax reaches no further entry point); "
+                  "compute_jvp/execute_and_compute_jvp are reached by direct calls only. Everything the oracle needs from a circuit is "
+                  "read at call entry, because the tracking code rewrites measured observables of the submitted tape in place. "
+                  "Mechanism tags seen on the pinned tree: `executions<lower-bound:execute:LinearCombination` and "
+                  "`resources-mismatch:execute:num_wires:observable-rewritten-in-place`.",
     "design_ref": "7/C73",
     "shards": {"quick": 4, "thorough": 8},
-    "budget_s": {"quick": 100, "thorough": 200},
+    "budget_s": {"quick": 50, "thorough": 200},
     "min_evals": {"quick": 1500, "thorough": 20000},
     "min_nontrivial": {"quick": 40, "thorough": 400},
     "deciding": ["counter.call", "counter.session", "mtracker.invariant"],
@@ -64,8 +68,7 @@ BATCH_KEY = {"execute": "batches", "compute_derivatives": "derivative_batches",
 COUNT_KEY = {"compute_derivatives": "derivatives", "execute_and_compute_derivatives": "derivatives", "compute_jvp": "jvps",
              "execute_and_compute_jvp": "jvps", "compute_vjp": "vjps", "execute_and_compute_vjp": "vjps"}
 DOC_KEYS = {"executions", "shots", "resources", "simulations", "batches", "results", "derivatives", "vjps", "jvps"} | set(BATCH_KEY.values())
-# keys about which the documentation says nothing for execute_and_compute_* (neither demanded nor forbidden)
-DONT_CARE_EXEC_AND = {"simulations", "results", "shots"}
+# for execute_and_compute_* the documentation says nothing about `simulations`, `results`, `shots`: neither demanded nor forbidden
 PAULI = {"PauliX": "X", "PauliY": "Y", "PauliZ": "Z"}
 
 
